@@ -131,7 +131,7 @@ def check(run: Run) -> None:
         if ok and mem.member == "NOTE":
             run.check("C09.R3", "S note renders notes", isinstance(v, FuncV) and v.qualname.endswith("_select_note"), "_get_selector", f"NOTE -> {v}", "NOTE is not rendered by _select_note", file=FILE_X)
     select_eval(run, model, P)
-    run.floor("pipeline evaluations", P.n, 20)
+    run.floor("pipeline evaluations", P.n, 21)
 
     # ---- R4
     lx = LexerGrammar(run.repo, FILE_LEXER)
@@ -301,10 +301,26 @@ class _Pipeline:
         def L(*xs):
             return st.alloc(HObj("list", items=list(xs)))
 
+        NT = {x.member: x for x in I.B.enum_members(I, self.model.cls(f"{T}.NoteType"))}
+        secs: dict = {}
+
+        def block_of(title):
+            if title is None:
+                return None
+            if title not in secs:
+                h1 = st.alloc(HObj("obj", cls="zorg.domain.models._page.H1", fields=dict(title=title, blocks=L(), page=None, h2s=L())))
+                secs[title] = st.alloc(HObj("obj", cls="zorg.domain.models._page.Block", fields=dict(section=h1, notes=L())))
+            return secs[title]
+
+        def payload(d):
+            if d.get("status") is None:
+                return None
+            return st.alloc(HObj("obj", cls="zorg.domain.models._page.TodoPayload", fields=dict(priority=d.get("priority", "P2"), status=NT[d["status"]])))
+
         notes = [st.alloc(HObj("obj", cls="zorg.domain.models._page.Note", fields=dict(
-            body=d["body"], zid=None, todo_payload=None, areas=L(*d.get("tags", [])), contexts=L(*d.get("tags", [])), people=L(*d.get("tags", [])), projects=L(*d.get("tags", [])),
+            body=d["body"], zid=None, todo_payload=payload(d), areas=L(*d.get("tags", [])), contexts=L(*d.get("tags", [])), people=L(*d.get("tags", [])), projects=L(*d.get("tags", [])),
             properties=st.alloc(HObj("dict", fields=dict(d.get("props", {})))), links=L(*d.get("links", [])), file_path=Opaque("vpath", d["fp"]), create_date=None, modify_date=None,
-            line_no=d.get("line", 1), block=None))) for d in specs]
+            line_no=d.get("line", 1), block=block_of(d.get("section"))))) for d in specs]
         self.holder["notes"] = notes
         sel = select(st) if callable(select) else select
         self.holder["query"] = st.alloc(HObj("obj", cls="zorg.domain.models._query.Query", fields=dict(select=sel, where=None, group_by=tuple(self.G[g] for g in group_by),
@@ -363,6 +379,20 @@ def pipeline_eval(run: Run, model: PyModel, P: "_Pipeline") -> None:
         why = (f"{miss} missing" if miss else f"{dup} rendered twice" if dup else "order / headers differ")
         run.check("C09.R1", f"{label}: every selected note once, under its group headers, groups and notes in key order", got == exp, "execute_with_session", f"{label}: {got}",
                   f"S note {label} over 7 notes (areas a2,a1,a2,-,a1,a2,a1; pages q,p,p,p,q,q,p) renders {got}, expected {exp}: {why}", file=FILE_X, node=fe.node)
+
+    # a label that extends another label by a word ("Work" / "Work 2024"), second-dimension labels on both sides of that word: tuple order of the group paths, not the order
+    # of the labels glued into one string
+    specs2 = [dict(body="w1", fp="p.zo", line=1, section="Work", status="OPEN_TODO"), dict(body="w2", fp="p.zo", line=2, section="Work 2024"), dict(body="w3", fp="p.zo", line=3, section="Work"),
+              dict(body="w4", fp="p.zo", line=4, section="Work 2024", status="OPEN_TODO")]
+    r = P.go("C09.R1", "grouped by section then kind, a section title extending another", specs2, P.SS["NOTE"], ["SECTION", "NOTE_TYPE"], ["NONE"])
+    if r is not None:
+        raw, groups = r
+        got = [l.strip() for l in raw.split("\n") if l.strip()]
+        kind = {0: "o P2 w1", 1: "- w2", 2: "- w3", 3: "o P2 w4"}
+        exp = [x for hs, members in P.headers(groups) for x in hs + [kind[i] for i in members]]
+        run.check("C09.R1", "section then kind: every selected note once, under its group headers, when one section title extends another", got == exp, "execute_with_session", f"section/kind: {got}",
+                  f"S note G section type over notes in sections 'Work' (a todo and a note) and 'Work 2024' (a note and a todo) renders {got}, expected {exp}: groups are formed over notes that are not sorted "
+                  "by the tuple of group keys (e.g. by the keys glued into one string), so a label occurs twice and the later chunk replaces the earlier one", file=FILE_X, node=fe.node)
 
     def count_sel(st):
         return P.I.construct(f"{T}.SelectAggregation", [], dict(func_name="count", select_type=P.SS["NOTE"]), st)[0][0]
